@@ -31,6 +31,7 @@ from placement.handlers import allocation
 from placement.handlers import inventory
 from placement.handlers import util as data_util
 from placement import microversion
+from placement.objects import consumer as consumer_obj
 from placement.objects import reshaper
 from placement.objects import resource_provider as rp_obj
 from placement.policies import reshaper as policies
@@ -130,9 +131,11 @@ def reshape(req):
         # Empty allocations for consumers that did not exist: nothing was
         # written for them, so do not leave consumer records without
         # allocations (removed in this same transaction).
-        for new_consumer in new_consumers_created:
-            if not allocations[new_consumer.uuid]['allocations']:
-                new_consumer.delete()
+        # (unless a racing request has given them allocations meanwhile)
+        unused = [new_consumer.uuid for new_consumer in new_consumers_created
+                  if not allocations[new_consumer.uuid]['allocations']]
+        if unused:
+            consumer_obj.delete_consumers_if_no_allocations(ctx, unused)
 
     def _create_allocations():
         try:
